@@ -1354,7 +1354,10 @@ impl World {
                     if st2.s_value(true) != before.s_value(true) || st2.has_staging != before.has_staging {
                         self.res.viol("C15", "replay-does-not-restore-staged-state", before.diff(&st2));
                     }
-                    if st2.stage != before.stage {
+                    // the change records must come back exactly; staged *objects* may legitimately be fewer:
+                    // replay does not re-stage an object that a committed pack already holds
+                    let changes = |s: &Option<String>| s.as_ref().and_then(|s| serde_json::from_str::<Value>(s).ok()).and_then(|v| v.get("c").cloned());
+                    if changes(&st2.stage) != changes(&before.stage) {
                         self.res.viol("C15", "stage-export-differs-after-replay", format!("{:?} vs {:?}", before.stage.as_ref().map(|s| trunc(s, 400)), st2.stage.as_ref().map(|s| trunc(s, 400))));
                     }
                     self.res.count("c15_replays", 1);
